@@ -66,6 +66,12 @@ def step_event(t0, name, opt, rule, k, text=""):
     objs = project.ObjTable()
     src = t0.clone()
     nd = inorder(src)[k]
+    # the realistic flow: ask on the tree, clone the node from the root, apply on the clone
+    try:
+        if not rule.can_apply_to(nd):
+            return None, None
+    except BaseException:  # noqa  (reported by the probe event)
+        return None, None
     project.absorb(objs, [src])
     work = nd.clone_from_root()
     wroot = work.get_root()
@@ -163,28 +169,51 @@ def print_event(text):
     return [ev]
 
 
+def reprobe_event(tree, persistent, text, after):
+    """C06: the answers of rule objects that have been used before must equal those of brand-new
+    rule objects on the identical tree (asking is a function of the tree only)."""
+    nodes = inorder(tree)
+
+    def answers(rs):
+        out = []
+        for _, _, r in rs:
+            row = []
+            for n in nodes:
+                try:
+                    row.append(bool(r.can_apply_to(n)))
+                except BaseException:  # noqa
+                    row.append(False)
+            out.append(row)
+        return out
+    used = answers(persistent)
+    fresh = answers(rules())
+    return {"typ": "reprobe", "rule": after, "opt": "", "text": text, "k": 0, "used": used, "fresh": fresh}
+
+
 def events_for_text(job):
-    """all probe + step events of one start text (every rule instance, every applicable node)"""
+    """all probe + step events of one start text (every rule instance, every applicable node).
+    One set of rule objects is used for the whole text, as a search agent would."""
     text, want_probe = job
     try:
         t0 = parse(text)
     except BaseException:  # noqa
         return []
     out = []
-    for name, opt, rule in rules():
-        nodes = inorder(t0.clone())
+    persistent = rules()
+    n = len(inorder(t0))
+    for name, opt, rule in persistent:
         if want_probe:
             out.append(probe_event(t0, name, opt, rule, text))
-        probe_tree = t0.clone()
-        pn = inorder(probe_tree)
-        for k in range(len(pn)):
-            try:
-                ok = rule.can_apply_to(pn[k])
-            except BaseException:  # noqa  (reported by the probe event)
-                ok = False
-            if ok:
-                ev, _ = step_event(t0, name, opt, rule, k, text)
-                out.append(ev)
+        for k in range(n):
+            ev, result_root = step_event(t0, name, opt, rule, k, text)
+            if ev is None:
+                continue
+            out.append(ev)
+            if want_probe and result_root is not None and ev["outcome"] == "ok":
+                try:
+                    out.append(reprobe_event(result_root, persistent, text, "%s@%d" % (name, k)))
+                except BaseException:  # noqa
+                    pass
     return out
 
 
